@@ -47,12 +47,13 @@ func checkC18(c *Ctx) {
 		if m.isCtorCode(f) {
 			continue
 		}
+		own := m.ownerOf(f)
 		eachInstr(f, func(in ssa.Instruction) {
 			if val, isConst, ok := m.claimStore(in); ok {
-				s := sects[f]
+				s := sects[own]
 				if s == nil {
 					s = &sect{}
-					sects[f] = s
+					sects[own] = s
 				}
 				if isConst {
 					s.claims = append(s.claims, val)
@@ -62,10 +63,10 @@ func checkC18(c *Ctx) {
 			}
 			if call, ok := in.(*ssa.Call); ok {
 				if fld, v, ok := m.atomicStore(call); ok && fld == m.State {
-					s := sects[f]
+					s := sects[own]
 					if s == nil {
 						s = &sect{}
-						sects[f] = s
+						sects[own] = s
 					}
 					str, isC := constStr(v)
 					if !isC {
@@ -184,7 +185,7 @@ func checkC18(c *Ctx) {
 		}
 		claimAt := s.claimI[len(s.claimI)-1]
 		gauge, trans := false, ""
-		eachInstr(f, func(in ssa.Instruction) {
+		m.eachUnitInstr(f, func(in ssa.Instruction) {
 			call, ok := in.(*ssa.Call)
 			if !ok {
 				return
@@ -193,7 +194,10 @@ func checkC18(c *Ctx) {
 			if g == nil || !m.isLib(g) {
 				return
 			}
-			if reachesMetric(g, "SetIsLeader") && dominatesInstr(claimAt, in) && la.MustBefore(in)[m.implMuW()] {
+			if containsFn(m.bodyFns(f), g) {
+				return // part of this section: its own instructions are visited
+			}
+			if reachesMetric(g, "SetIsLeader") && m.dominatesLifted(f, claimAt, in) && la.MustBefore(in)[m.implMuW()] {
 				gauge = true
 			}
 			if reachesMetric(g, "IncTransitions") && len(call.Call.Args) >= 3 && la.MustBefore(in)[m.implMuW()] {
@@ -204,9 +208,9 @@ func checkC18(c *Ctx) {
 				// the state load precedes the state store
 				ordered := true
 				if len(s.stateI) > 0 {
-					eachInstr(f, func(x ssa.Instruction) {
+					m.eachUnitInstr(f, func(x ssa.Instruction) {
 						if c2, ok := x.(*ssa.Call); ok && m.isAtomicLoadOf(c2, m.State) {
-							if !dominatesInstr(x, s.stateI[0]) {
+							if !m.dominatesLifted(f, x, s.stateI[0]) {
 								ordered = false
 							}
 						}
@@ -250,7 +254,7 @@ func checkC18(c *Ctx) {
 					f3, _, ok := m.atomicStore(c2)
 					return ok && f3 == fld
 				}), shortFn(f))
-				if containsFn(m.ClaimSet, f) && la.MustBefore(in)[m.implMuW()] {
+				if m.inClaimUnit(f) && la.MustBefore(in)[m.implMuW()] {
 					c.ok("R3", key, in, "in the claim-set unit under the mutex")
 					return
 				}
